@@ -343,6 +343,13 @@ class Hostile:
         if ch == "rd":
             return "rd %x %x %d" % (idx, sub, r.choice([1, 2, 4]))
         if ch == "wr":
+            # the application writes objects that are writable; constants such as 'highest sub-index' entries are left alone
+            # (an application that overwrites them makes its own dictionary ill-formed)
+            wobjs = [(o.idx, o.sub) for o in self.cfg.objs if o.flags & W]
+            if wobjs and r.random() < 0.9:
+                idx, sub = r.choice(wobjs)
+            elif (idx, sub) in [(o.idx, o.sub) for o in self.cfg.objs if not (o.flags & W)]:
+                return "geterr"
             return "wr %x %x %d %x" % (idx, sub, r.choice([1, 2, 4]), self.u32())
         if ch in ("rdbuf", "wrbuf"):           # buffer API: objects with buffer semantics only (strings, domains)
             bufobjs = [(o.idx, o.sub) for o in self.cfg.objs if o.kind in ("S", "M")]
